@@ -60,6 +60,7 @@ void check_owned(Ctx &c, Str &s, const std::string &ref, const char *what) {
 	} else VCHECK(c, "C15", ref.empty(), "%s: data() is null for a string of %zu characters", what, ref.size());
 	View v = s;
 	VCHECK(c, "C15", v.size() == ref.size() && v.data() == s.data(), "%s: conversion to string_view yields another range", what);
+	if(!ref.empty()) VCHECK(c, "C15", !(v.sub_string(0, ref.size() - 1) == v) && v.sub_string(0, ref.size()) == v, "%s: a prefix view of the string compares equal to the whole string", what);
 }
 
 void view_battery(Ctx &c, const std::string &A, const std::string &B) {
@@ -91,6 +92,14 @@ void view_battery(Ctx &c, const std::string &A, const std::string &B) {
 		for(size_t len = 0; from + len <= A.size(); len++) {
 			View sub = va.sub_string(from, len);
 			VCHECK(c, "C15", sub.data() == va.data() + from && sub.size() == len, "%s.sub_string(%zu,%zu) yields another range", show(A).c_str(), from, len);
+		}
+	// views into the same buffer (prefixes, suffixes, inner ranges of one string) compare by content
+	for(size_t from = 0; from <= A.size(); from++)
+		for(size_t len = 0; from + len <= A.size(); len++) {
+			View sub = va.sub_string(from, len);
+			bool exp_full = ra.substr(from, len) == ra;
+			VCHECK(c, "C15", (sub == va) == exp_full && (va == sub) == exp_full, "%s.sub_string(%zu,%zu) == the whole view gives %d, reference %d", show(A).c_str(), from, len, (int)(sub == va), (int)exp_full);
+			if(len >= 1) { View shorter = va.sub_string(from, len - 1); bool e2 = ra.substr(from, len) == ra.substr(from, len - 1); VCHECK(c, "C15", (sub == shorter) == e2, "a view equals its own proper prefix"); }
 		}
 	bool sw = ra.substr(0, std::min(B.size(), A.size())) == rb, ew = A.size() >= B.size() && ra.substr(A.size() - B.size()) == rb;
 	VCHECK(c, "C15", va.starts_with(vb) == sw, "%s.starts_with(%s) is %d", show(A).c_str(), show(B).c_str(), (int)va.starts_with(vb));
@@ -184,13 +193,13 @@ void history(Ctx &c) {
 	auto &t = c.t;
 	constexpr int S = 3;
 	Str *slot[S]; std::string ref[S];
-	for(int s = 0; s < S; s++) slot[s] = c.make<Str>(track_alloc{});
+	for(int s = 0; s < S; s++) slot[s] = c.make<Str>(track_alloc{s});      // three different pools: a block must go back to the pool it came from
 	bool nt = false, released = false;
 	unsigned nops = 1 + t.pick(30);
 	for(unsigned i = 0; i < nops && !t.done(); i++) {
 		int s = t.pick(S), d = t.pick(S);
 		switch(t.pick(12)) {
-		case 0: { std::string b = gen_bytes(c); c.op("s%d = string(ptr,len %s)", s, show(b).c_str()); if(!ref[s].empty()) released = true; *slot[s] = Str(exact(c, b), b.size(), track_alloc{}); ref[s] = b; break; }
+		case 0: { std::string b = gen_bytes(c); c.op("s%d = string(ptr,len %s)", s, show(b).c_str()); if(!ref[s].empty()) released = true; *slot[s] = Str(exact(c, b), b.size(), track_alloc{(s + 1) % 3}); ref[s] = b; break; }
 		case 1: { std::string b = gen_bytes(c); b = b.substr(0, b.find('\0')); c.op("s%d = string(cstr %s)", s, show(b).c_str()); *slot[s] = Str(exact(c, b, true), track_alloc{}); ref[s] = b; break; }
 		case 2: { std::string b = gen_bytes(c); c.op("s%d = string(view %s)", s, show(b).c_str()); *slot[s] = Str(View(exact(c, b), b.size()), track_alloc{}); ref[s] = b; break; }
 		case 3: { c.op("s%d = s%d", d, s); if(!ref[d].empty()) released = true; *slot[d] = *slot[s]; ref[d] = ref[s]; break; }
